@@ -12,7 +12,7 @@ From Coq Require Import ZArith List Bool Arith Lia Permutation.
 From SP Require Import Design.Flat Design.Layout Comb.CombModel Comb.CombSpec Random.Enum Random.Frag Random.RunLemmas
   Random.FragPerm Random.ListFacts.
 From SP Require Comb.PermProofs Comb.RadixProofs Comb.MultiProofs Comb.PrefixProofs Comb.StackProofs
-  Comb.SessionProofs Comb.DispatchProofs.
+  Comb.SessionProofs Comb.DispatchProofs Comb.TotalProofs.
 Import ListNotations.
 Local Open Scope Z_scope.
 
@@ -550,6 +550,114 @@ Proof.
       apply Z2Nat.id. exact HN.
 Qed.
 
+(** ** totality (C13 totality of the memoised counter / unranker) *)
+Lemma words_index (shapes : list Z) (wd : list Z) : length shapes = qn ->
+  Forall (fun x => 0 <= x < qz) wd -> exists ss, rmap (zindex shapes) wd = ROk ss.
+Proof.
+  intros Hl Hw. induction Hw as [|x t Hx Ht IH]; [exists []; reflexivity|]. destruct IH as [ss Hss].
+  destruct (nth_error shapes (Z.to_nat x)) as [v|] eqn:E.
+  - exists (v :: ss). cbn [rmap]. rewrite (zindex_some shapes x v ltac:(lia) E). cbn [rbind]. rewrite Hss. reflexivity.
+  - apply nth_error_None in E. rewrite Hl in E. rewrite qz_nat in Hx. lia.
+Qed.
+
+Lemma bounded_in_range n wd : bounded_word cs n wd -> Forall (fun x => 0 <= x < qz) wd.
+Proof. intros (_ & Hs & _). destruct Hp as [Hq _]. unfold symbols_below in Hs. rewrite <- Hq in Hs. exact Hs. Qed.
+
+Lemma scp_loop_total' n shapes : 0 <= n -> length shapes = qn -> forall cntn a memo s,
+  valid memo -> Z.of_nat a + Z.of_nat cntn <= cnt cs n ->
+  exists r, scp_loop eb cntn (Z.of_nat a) n shapes memo s = ROk r.
+Proof.
+  intros Hn Hl. induction cntn as [|c IH]; intros a memo s Hval Hb; [eexists; reflexivity|].
+  cbn [scp_loop].
+  destruct (TotalProofs.unrank_dispatch_total qz mc n memo (Z.of_nat a) Hp Hn Hval ltac:(lia)) as (wd & memo' & Hc & Hbw & _ & Hval').
+  rewrite Hc. cbn [lift rbind kperm fst snd].
+  destruct (words_index shapes wd Hl (bounded_in_range n wd Hbw)) as [ss Hss]. rewrite Hss. cbn [rbind].
+  replace (Z.of_nat a + 1) with (Z.of_nat (S a)) by lia. apply (IH (S a) memo' _ Hval'). lia.
+Qed.
+
+Lemma count_solutions_total n memo0 vs : 0 <= n -> valid memo0 -> (plain = true -> (Z.to_nat n <= qn)%nat) ->
+  length vs = qn -> (0 < qn)%nat -> exists r, count_solutions fb eb n memo0 vs = ROk r.
+Proof.
+  intros Hn Hval Hple Hlv Hq. unfold count_solutions. fold plain.
+  set (combs := map (fun l : list nat => Z.of_nat (length l)) vs).
+  assert (Hlc : length combs = qn) by (unfold combs; rewrite map_length; exact Hlv).
+  (* the number of permutations *)
+  assert (Hpm : exists memo1, valid memo1 /\
+            (if plain
+             then fn <-- lift (factorial (qz * eb_m eb)) ;;;
+                  (if n =? qz * eb_m eb then ROk (fn, memo0)
+                   else fd <-- lift (factorial (qz * eb_m eb - n)) ;;;
+                        (if fd =? 0 then RErr ZeroDivisionError else ROk (fn / fd, memo0)))
+             else r <-- lift (count_prefixes_of_permutations_with_copies qz mc n memo0) ;;;
+                  c <-- kcount r ;;; ROk (c, snd r)) = ROk (Ncount n, memo1)).
+  { unfold Ncount. destruct (Bool.bool_dec plain true) as [Hpl | Hpl]; [|apply not_true_is_false in Hpl]; rewrite Hpl.
+    - assert (Em : eb_m eb = 1) by (unfold plain in Hpl; apply andb_prop in Hpl; destruct Hpl as [H _]; apply Z.eqb_eq in H; exact H).
+      specialize (Hple Hpl). rewrite Em, Z.mul_1_r. exists memo0. split; [exact Hval|]. unfold factorial.
+      replace (qz <? 0) with false by (symmetry; apply Z.ltb_ge; rewrite qz_nat; lia).
+      cbn [lift rbind]. rewrite qz_nat, Nat2Z.id.
+      destruct (n =? Z.of_nat qn) eqn:E.
+      + apply Z.eqb_eq in E. rewrite E, Nat2Z.id.
+        rewrite <- (fact_div qn qn (le_n _)), Nat.sub_diag. cbn [fact_nat]. rewrite Z.div_1_r. reflexivity.
+      + apply Z.eqb_neq in E. replace (Z.of_nat qn - n <? 0) with false by (symmetry; apply Z.ltb_ge; lia).
+        cbn [lift rbind]. replace (Z.to_nat (Z.of_nat qn - n)) with (qn - Z.to_nat n)%nat by lia.
+        pose proof (fact_pos (qn - Z.to_nat n)) as Hpos.
+        replace (fact_nat (qn - Z.to_nat n) =? 0) with false by (symmetry; apply Z.eqb_neq; lia).
+        rewrite fact_div by lia. reflexivity.
+    - destruct (TotalProofs.count_dispatch_total qz mc n memo0 Hp Hn Hval) as (memo1 & Hc & Hval1).
+      exists memo1. split; [exact Hval1|]. rewrite Hc. reflexivity. }
+  destruct Hpm as (memo1 & Hval1 & Hpm). rewrite Hpm. cbn [rbind]. fold (full n).
+  destruct (full n); [eexists; reflexivity|].
+  unfold sum_combination_products.
+  destruct (all_equal_Z combs && match mc with Uniform _ => true | Counters cs0 => all_equal_Z cs0 end).
+  - destruct combs as [|s0 rest] eqn:Ec; [cbn in Hlc; lia|]. cbn [zindex Z.ltb Z.compare Z.to_nat nth_error of_opt rbind].
+    eexists. reflexivity.
+  - assert (HN : 0 <= Ncount n).
+    { unfold Ncount. destruct (Bool.bool_dec plain true) as [Hpl | Hpl]; [|apply not_true_is_false in Hpl]; rewrite Hpl.
+      - rewrite qz_nat. apply ffact_nonneg. apply Hple. exact Hpl.
+      - apply PrefixProofs.cnt_nonneg. }
+    assert (Hrange : Z.of_nat 0 + Z.of_nat (Z.to_nat (Ncount n)) <= cnt cs n).
+    { rewrite Z2Nat.id by exact HN. unfold Ncount. destruct (Bool.bool_dec plain true) as [Hpl | Hpl].
+      - rewrite Hpl. pose proof (plain_cnt (Z.to_nat n) Hpl (Hple Hpl)) as H.
+        rewrite Z2Nat.id in H by exact Hn. cbn. lia.
+      - apply not_true_is_false in Hpl. rewrite Hpl. cbn. lia. }
+    destruct (scp_loop_total' n combs Hn Hlc (Z.to_nat (Ncount n)) 0%nat memo1 0 Hval1 Hrange) as [[s' memo2] Hrun].
+    cbn [Z.of_nat] in Hrun. rewrite Hrun. cbn [rbind]. eexists. reflexivity.
+Qed.
+
+Lemma jth_total n pi memo : 0 <= n -> valid memo -> (plain = true -> (Z.to_nat n <= qn)%nat) -> Z.of_nat pi < Ncount n ->
+  exists wd, jth_permutation_indices eb qz n (Z.of_nat pi) memo = ROk wd /\ Forall (fun x => 0 <= x < qz) wd.
+Proof.
+  intros Hn Hval Hple Hpi. unfold jth_permutation_indices. fold plain. unfold Ncount in Hpi.
+  destruct (Bool.bool_dec plain true) as [Hpl | Hpl]; [|apply not_true_is_false in Hpl]; rewrite Hpl in Hpi; rewrite Hpl.
+  - destruct (PermProofs.perm_prefix_bij qn (Z.to_nat n) (Hple Hpl)) as [H1 _]. rewrite <- qz_nat in H1.
+    destruct (H1 (Z.of_nat pi) ltac:(lia)) as (p & Hcp & _ & [_ Hin] & _). rewrite Z2Nat.id in Hcp by exact Hn.
+    rewrite Hcp. exists p. split; [reflexivity | exact Hin].
+  - destruct (TotalProofs.unrank_dispatch_total qz mc n memo (Z.of_nat pi) Hp Hn Hval ltac:(lia)) as (wd & memo' & Hc & Hbw & _).
+    rewrite Hc. exists wd. split; [reflexivity | apply (bounded_in_range n wd Hbw)].
+Qed.
+
+Lemma components_total sh n memoF : 0 <= n -> valid memoF -> (plain = true -> (Z.to_nat n <= qn)%nat) ->
+  sh_cross sh = Ncount n -> length (sh_combs sh) = qn ->
+  exists cs0, components_for en sh n memoF = ROk cs0.
+Proof.
+  intros Hn Hval Hple Hsh Hlc. unfold components_for. rewrite full_round_eq, Hen, Hsh.
+  assert (G : forall xs, (forall pi, In pi xs -> Z.of_nat pi < Ncount n) ->
+            exists r, rmap (fun pi : nat =>
+                        src_shapes <-- (if full n then ROk (sh_combs sh)
+                                        else perm <-- jth_permutation_indices eb qz n (Z.of_nat pi) memoF ;;; rmap (zindex (sh_combs sh)) perm) ;;;
+                        ROk (flat_map (fun src => map (fun ind => (Z.of_nat pi, src, ind)) (ranges_product (sh_inds sh)))
+                                      (ranges_product src_shapes))) xs = ROk r).
+  { induction xs as [|pi t IH]; intros Hb; [exists []; reflexivity|].
+    destruct (IH (fun x Hx => Hb x (or_intror Hx))) as [r Hr]. cbn [rmap]. rewrite Hr.
+    destruct (full n).
+    - cbn [rbind]. eexists. reflexivity.
+    - destruct (jth_total n pi memoF Hn Hval Hple (Hb pi (or_introl eq_refl))) as (wd & Hj & Hin). rewrite Hj. cbn [rbind].
+      destruct (words_index (sh_combs sh) wd Hlc Hin) as [ss Hss]. rewrite Hss. cbn [rbind]. eexists. reflexivity. }
+  destruct (G (seq 0 (Z.to_nat (Ncount n)))) as [r Hr].
+  { intros pi Hpi. apply in_seq in Hpi. lia. }
+  rewrite Hr. cbn [rbind]. eexists. reflexivity.
+Qed.
+
 End KC.
 
 (** * The enumerator of a design, and its key list *)
@@ -564,7 +672,8 @@ Proof. rewrite <- combo_weight_Z. lia. Qed.
 
 (** the parameters the combinatorics module is called with are in order *)
 Lemma enum_base_params eb : enum_base_of fb = ROk eb ->
-  StackProofs.params_ok (q_instances eb) (eb_moc eb) /\ (plain eb = true -> eb_moc eb = Uniform 1) /\ 0 <= eb_csize eb.
+  StackProofs.params_ok (q_instances eb) (eb_moc eb) /\ (plain eb = true -> eb_moc eb = Uniform 1) /\ 0 <= eb_csize eb /\
+  (plain eb = true -> eb_csize eb = q_instances eb) /\ (eb_csize eb <> 0 -> (0 < length (eb_instances eb))%nat).
 Proof.
   unfold enum_base_of. intros H.
   apply rbind_ok in H. destruct H as [mcr [_ H]].
@@ -590,7 +699,7 @@ Proof.
   assert (Hcws : Forall (fun x => 0 <= x) cws).
   { apply Forall_forall. intros x Hx. apply in_map_iff in Hx. destruct Hx as [c [E _]]. subst x.
     pose proof (combination_weight_nonneg c). nia. }
-  split; [|split].
+  split; [|split; [|split; [|split]]].
   - destruct (forallb (Z.eqb 1) cws).
     + split; cbn [StackProofs.cs_of]; [rewrite repeat_length, Nat2Z.id; reflexivity|].
       apply Forall_forall. intros x Hx. apply repeat_spec in Hx. lia.
@@ -599,6 +708,9 @@ Proof.
       rewrite Forall_forall in Hcws. specialize (Hcws y Hy). nia.
   - intros Hpl. apply andb_prop in Hpl. destruct Hpl as [H1 H2]. apply Z.eqb_eq in H1. rewrite H2, H1. reflexivity.
   - pose proof (fold_add_nonneg cws 0 ltac:(lia) Hcws). nia.
+  - intros Hpl. apply andb_prop in Hpl. destruct Hpl as [H1 H2]. apply Z.eqb_eq in H1. rewrite H1, Z.mul_1_r.
+    rewrite (forallb_eqb1_repeat cws H2). rewrite fold_add_zsum, zsum_repeat1. unfold cws. rewrite !map_length. lia.
+  - intros Hne. destruct inst as [|i0 rest]; [|cbn; lia]. exfalso. apply Hne. cbn. lia.
 Qed.
 
 Lemma prodZl_nonneg l : Forall (fun x => 0 <= x) l -> 0 <= prodZl l.
@@ -641,7 +753,7 @@ Theorem keys_count_general en ks :
 Proof.
   intros Hen Hks Hrounds. unfold make_enumerator in Hen.
   apply rbind_ok in Hen. destruct Hen as [eb [Heb Hen]].
-  destruct (enum_base_params eb Heb) as (Hp & Hplain & Hcs).
+  destruct (enum_base_params eb Heb) as (Hp & Hplain & Hcs & _).
   apply rbind_ok in Hen. destruct Hen as [vs [_ Hen]].
   apply rbind_ok in Hen. destruct Hen as [[[cntv sh] memo] [Hc1 Hen]].
   apply rbind_ok in Hen. destruct Hen as [u [Hz Hen]].
@@ -675,6 +787,52 @@ Proof.
   destruct (keys_structure (Z.to_nat pc) (Z.to_nat (rounds_per_run fb en)) cs0 ls Hnd1 Hnd2) as [HND HLEN].
   split; [exact HND|]. etransitivity; [apply (f_equal Z.of_nat); exact HLEN|]. unfold possible_keys. fold pc. replace (en_count en) with cntv by reflexivity.
   replace (en_lcount en) with lcnt by reflexivity. rewrite !Nat2Z.inj_mul, Nat2Z.inj_pow, Hlen1, Hlen2. rewrite !Z2Nat.id by assumption. ring.
+Qed.
+
+(** the enumerator and its key list are built whenever the partition of the design and the filter of the source
+    combinations succeed (the known KeyError of the derived-source chain arises in that filter) and the crossing is
+    not empty: no error value afterwards, in particular no fuel exhaustion *)
+Theorem enumerator_total eb vs :
+  enum_base_of fb = ROk eb -> valid_sources fb eb = ROk vs -> eb_csize eb <> 0 ->
+  exists en ks, make_enumerator fb = ROk en /\ all_keys fb en = ROk ks /\ en_base en = eb /\ en_valid en = vs.
+Proof.
+  intros Heb Hvs Hne. destruct (enum_base_params eb Heb) as (Hp & Hplain & Hcs & Hpcs & Hq).
+  specialize (Hq Hne).
+  assert (Hlv : length vs = length (eb_instances eb)) by (unfold valid_sources in Hvs; apply rmap_length in Hvs; exact Hvs).
+  assert (Hcpos : 0 < eb_csize eb) by lia.
+  unfold make_enumerator. rewrite Heb. cbn [rbind]. rewrite Hvs. cbn [rbind].
+  destruct (count_solutions_total eb Hp Hplain fb (eb_csize eb) [] vs Hcs (StackProofs.memo_valid_nil _ _)) as [[[cntv sh] memo] Hc1];
+    [intros Hpl; rewrite (Hpcs Hpl); unfold q_instances; lia | exact Hlv | exact Hq|].
+  rewrite Hc1. cbn [rbind].
+  replace (eb_csize eb =? 0) with false by (symmetry; apply Z.eqb_neq; exact Hne). cbn [rbind].
+  set (lo := (trials_Z fb - eb_preamble eb) mod eb_csize eb).
+  assert (Hlo : 0 <= lo < eb_csize eb) by (apply Z.mod_pos_bound; exact Hcpos).
+  assert (Hc2 : exists r2, (if lo =? 0 then ROk (1, {| sh_cross := 0; sh_combs := []; sh_inds := [] |}, [])
+                            else count_solutions fb eb lo [] vs) = ROk r2).
+  { destruct (lo =? 0); [eexists; reflexivity|].
+    apply (count_solutions_total eb Hp Hplain fb lo [] vs ltac:(lia) (StackProofs.memo_valid_nil _ _));
+      [intros Hpl; rewrite (Hpcs Hpl) in Hlo; unfold q_instances in Hlo; lia | exact Hlv | exact Hq]. }
+  destruct Hc2 as [[[lcnt lsh] lmemo] Hc2]. rewrite Hc2. cbn [rbind].
+  eexists. match goal with |- exists ks, ROk ?e = ROk _ /\ _ => set (en := e) end.
+  (* the key list *)
+  destruct (count_solutions_spec eb Hp Hplain fb (eb_csize eb) [] vs cntv sh memo Hcs (StackProofs.memo_valid_nil _ _) Hc1)
+    as (Hcross & Hcombs & HvalF & _ & Hple & _).
+  assert (Hk1 : exists cs0, components_for en sh (eb_csize eb) memo = ROk cs0).
+  { apply (components_total eb Hp Hplain en eq_refl sh (eb_csize eb) memo Hcs HvalF Hple Hcross).
+    rewrite Hcombs, map_length. exact Hlv. }
+  destruct Hk1 as [cs0 Hk1].
+  assert (Hk2 : exists ls, (if lo =? 0 then ROk [None]
+                            else l <-- components_for en lsh lo lmemo ;;; ROk (map Some l)) = ROk ls).
+  { destruct (lo =? 0) eqn:E; [eexists; reflexivity|].
+    destruct (count_solutions_spec eb Hp Hplain fb lo [] vs lcnt lsh lmemo ltac:(lia) (StackProofs.memo_valid_nil _ _) Hc2)
+      as (Hcross2 & Hcombs2 & HvalF2 & _ & Hple2 & _).
+    destruct (components_total eb Hp Hplain en eq_refl lsh lo lmemo ltac:(lia) HvalF2 Hple2 Hcross2) as [l Hl];
+      [rewrite Hcombs2, map_length; exact Hlv|].
+    rewrite Hl. cbn [rbind]. eexists. reflexivity. }
+  destruct Hk2 as [ls Hk2].
+  eexists. split; [reflexivity|]. split; [|split; reflexivity].
+  unfold all_keys. cbn [en_base en_shape en_memo en_leftover en_lshape en_lmemo en]. fold en. rewrite Hk1. cbn [rbind].
+  fold lo. rewrite Hk2. cbn [rbind]. reflexivity.
 Qed.
 
 End General.
